@@ -6,6 +6,7 @@ import Tickit.Proof.WinFocusResize
 import Tickit.Proof.WinFocusMock
 import Tickit.Proof.WinFocusMockHist
 import Tickit.Proof.WinFocusRelink
+import Tickit.Proof.WinFocusOrder
 import Tickit.Gen.WinFocusSrc
 /-
   C15 — After a flush the terminal cursor reflects the focused window, or is hidden.
@@ -721,6 +722,85 @@ theorem flush_cursor_repaired (fx : Fixes) (hfx : fx.hiddenRoot = true) (t : Tre
     (c0.applyAll out.calls).matches (cursorSpec out.tree) = true :=
   flush_cursor fx t out hf hl hr (flush_wf hwf hq hf) (.inl hfx) c0
 
+/-! ### restacking requests take effect in the order they were made
+
+  `raise` / `raise_to_front` / `lower` / `lower_to_back` only queue a request; the flush applies the queue.  "Not covered by
+  another window" in the cursor clause therefore depends on *which order* the flush applies them in.  The specification
+  (`Model/WinFocus.lean`): `stackSpec` — what one request asks of its parent's sibling list (one place towards the front /
+  back, to the front, to the back; nothing for a window that is not in the list), `stackApplied t reqs` — the requests
+  applied oldest first, `cursorSpecReq before after reqs` — the cursor clause on `after` stacked as `stackApplied before
+  reqs`.  The engine evaluates `cursorSpecReq` on the library's observations at every flush, with the requests read from
+  the operation lines since the last flush. -/
+
+/-- `_request_hierarchy_change` touches no window; a window without a parent (the root, a closed window) gets nothing
+    queued, any other gets its request appended *behind* those already waiting. -/
+theorem request_queued_last (t t' : Tree) (F : Nat) (ch : Change) (w : Nat)
+    (h : requestHierarchyChange t F ch w = .ok t') :
+    t'.wins = t.wins ∧
+    ((parentOf t w = some none ∧ t'.root.changes = t.root.changes) ∨
+     (∃ p, ParentIs t ⟨ch, p, w⟩ ∧ t'.root.changes = t.root.changes ++ [⟨ch, p, w⟩])) :=
+  request_step h
+
+/-- `_do_hierarchy_change` for a restacking request does to the tree exactly what the request asks for: the parent's
+    sibling list becomes `stackSpec` of it, and no other field of any window changes. -/
+theorem restack_applied_exact (t t' : Tree) (F p c : Nat) (ch : Change) (hch : ch.isRestack = true)
+    (hd : doHierarchyChange t F ch p c = .ok t') :
+    ∃ pw, t.wins[p]? = some pw ∧
+      t'.wins = t.wins.setIfInBounds p { pw with children := stackSpec ch pw.children c } :=
+  restack_exact hch hd
+
+/-- **The flush applies the queue oldest first**: whatever is queued (restacking requests, each naming its window's
+    parent — all the API can queue), after `tickit_window_flush` the windows are those of `stackApplied`: the sibling
+    lists found at the flush with the requests applied in the order they were made; nothing else about any window
+    changes. -/
+theorem flush_applies_requests_in_order (fx : Fixes) (t : Tree) (out : FlushOut)
+    (hq : ∀ q ∈ t.root.changes, q.change.isRestack = true ∧ ParentIs t q)
+    (hl : t.root.changes ≠ [] → t.root.needsLater = true) (hf : flush fx t = .ok out) :
+    out.tree.wins = (stackApplied t (t.root.changes.map Req.pair)).wins :=
+  flush_order hq hl hf
+
+/-- **The cursor clause over bursts of requests** (repaired source).  From any state a history reaches (`HInv`) in which
+    the waiting requests name their windows' parents: after any number of restacking requests `rs` and a flush, the
+    windows are stacked as the waiting requests and then `rs`, applied oldest first, say — and the terminal cursor is
+    visible exactly when the cursor clause holds on the tree *stacked that way* (the focused window's cursor cell not
+    covered by another window after the requests took effect in request order), at that cell, with that shape; hidden
+    in every other case. -/
+theorem restack_burst_cursor (fx : Fixes) (hfx1 : fx.hiddenRoot = true) (hfx2 : fx.chainRestore = true)
+    (s1 : HSt) (hi : HInv s1) (hq0 : ∀ q ∈ s1.tree.root.changes, ParentIs s1.tree q)
+    (rs : List (Change × Nat)) (hrs : ∀ r ∈ rs, r.1.isRestack = true) (s2 : HSt)
+    (h : runOps fx s1 (reqOps rs ++ [.flush]) = .ok s2) :
+    s2.tree.wins = (stackApplied s1.tree (s1.tree.root.changes.map Req.pair ++ rs)).wins ∧
+    s2.term.matches (cursorSpecReq s1.tree s2.tree (s1.tree.root.changes.map Req.pair ++ rs)) = true ∧
+    s2.tree.root.changes = [] :=
+  restack_burst_order hfx1 hfx2 hi hq0 rs hrs s2 h
+
+/-- **… over whole histories**: any history of the API's operations from a fresh root window that ends in a flush, then
+    any burst of restacking requests, then a flush: the stacking is the burst applied in request order to the stacking
+    of the first flush, and the cursor is `cursorSpecReq` — the property's first sentence with "restack" in the
+    quantifier read as "requests take effect at the flush in the order they were made". -/
+theorem history_restack_order (fx : Fixes) (hfx1 : fx.hiddenRoot = true) (hfx2 : fx.chainRestore = true)
+    (l c : Int) (hl : 0 < l) (hc : 0 < c) (ops : List Op) (hplain : ∀ op ∈ ops, op.plain) (s1 : HSt)
+    (h1 : runOps fx { tree := newRoot l c } (ops ++ [.flush]) = .ok s1)
+    (rs : List (Change × Nat)) (hrs : ∀ r ∈ rs, r.1.isRestack = true) (s2 : HSt)
+    (h2 : runOps fx s1 (reqOps rs ++ [.flush]) = .ok s2) :
+    s2.tree.wins = (stackApplied s1.tree rs).wins ∧ s2.term.matches (cursorSpecReq s1.tree s2.tree rs) = true :=
+  WinFocus.history_restack_order hfx1 hfx2 l c hl hc ops hplain s1 h1 rs hrs s2 h2
+
+/-- The order matters, and the specification tells the orders apart: two overlapping siblings, window 1 focused with its
+    cursor cell in the overlap.  "2 to the front, then 1 to the front" leaves the cursor visible at 2,2; "1 to the front,
+    then 2 to the front" leaves it hidden; `raise 1; lower 1` nets out (hidden as before), `lower 1; raise 1` does not
+    when window 1 is already at the back … — a flush that applied its queue youngest first would be judged wrong on
+    each of these. -/
+theorem request_order_matters :
+    ∃ s, runOps Fixes.all { tree := newRoot 6 10 }
+        [.newWin 0 ⟨1, 1, 3, 3⟩ false false false false, .newWin 0 ⟨2, 2, 3, 3⟩ false false false false,
+         .curpos 1 1 1, .focus 1, .flush] = .ok s ∧
+      cursorSpecReq s.tree s.tree [(.raiseFront, 2), (.raiseFront, 1)] = some (2, 2, 1) ∧
+      cursorSpecReq s.tree s.tree [(.raiseFront, 1), (.raiseFront, 2)] = none ∧
+      cursorSpecReq s.tree s.tree [(.raise, 1), (.lower, 1)] = none ∧
+      cursorSpecReq s.tree s.tree [(.lower, 1), (.raise, 1)] = some (2, 2, 1) := by
+  refine ⟨_, rfl, by decide, by decide, by decide, by decide⟩
+
 /-! ### the source is as the model assumes (regenerated from the working tree on every run) -/
 
 /-- The harness reads `focused_child` and the cursor position through a mirror of this prefix of `struct TickitWindow`. -/
@@ -879,5 +959,21 @@ example : ∃ t1 t2, hideWin Fixes.all deepChainTree 1 = .ok t1 ∧ wfB t1 = tru
     to go -/
 example : ∃ t', reposition deepChainTree 3 20 40 = .ok t' ∧ t'.root.needsRestore = true ∧ cursorSpec t' = none := by
   refine ⟨_, rfl, ?_, ?_⟩ <;> decide
+
+/-- bursts of restacking requests through the history-level vocabulary: the hypotheses of `history_restack_order` are
+    satisfiable, and the library (model) does what `cursorSpecReq` says in both orders -/
+example : (∀ r ∈ [(Change.raiseFront, 2), (Change.raiseFront, 1)], r.1.isRestack = true) := by decide
+example : ∃ s, runOps Fixes.all { tree := newRoot 6 10 }
+      (restackOps1 ++ reqOps [(.raiseFront, 2), (.raiseFront, 1)] ++ [.flush]) = .ok s ∧
+    cursorSpec s.tree = some (2, 2, 1) ∧ s.term.matches (some (2, 2, 1)) = true := by
+  refine ⟨_, rfl, by decide, by decide⟩
+example : ∃ s, runOps Fixes.all { tree := newRoot 6 10 }
+      (restackOps1 ++ reqOps [(.raiseFront, 1), (.raiseFront, 2)] ++ [.flush]) = .ok s ∧
+    cursorSpec s.tree = none ∧ s.term.matches none = true := by
+  refine ⟨_, rfl, by decide, by decide⟩
+example : stackSpec .raise [3, 1, 2] 2 = [3, 2, 1] ∧ stackSpec .lower [3, 1, 2] 3 = [1, 3, 2] ∧
+    stackSpec .raiseFront [3, 1, 2] 2 = [2, 3, 1] ∧ stackSpec .lowerBack [3, 1, 2] 3 = [1, 2, 3] ∧
+    stackSpec .raise [3, 1, 2] 3 = [3, 1, 2] ∧ stackSpec .lower [3, 1, 2] 2 = [3, 1, 2] ∧ stackSpec .raise [3, 1, 2] 7 = [3, 1, 2] := by
+  decide
 
 end Tickit.Props.C15
